@@ -27,6 +27,7 @@ RULE = (
     "the step without fault gives the fault-free root. Non-trivial = ledger has >=3 "
     "distinct roots, >=1 effective delete, >=1 crash point inside a batch commit. "
     "Distinct = canonical JSON."
+    " Added after the seeded rounds: batches through an at_root snapshot, two batches open at the same time on one trie object, migrating the store (every trie's db attribute re-pointed at a copy), non-pruning spelled False / None / 0 / default, failing writes raising one of three exception types, one fixed very large batch (3800 / 12000 sets) that re-creates historical nodes first and drops them last."
 )
 LEVEL_TEXT = (
     "Fault enumeration: every database write of every mutating step of a generated "
